@@ -89,8 +89,14 @@ def check(spec, _b=None):
     # reported must not depend on what was asked before (a report that caches or annualises in place shows on the second request)
     order = list(itertools.permutations(("spend", "capacity", "eligible", "fraction", "number")))[crc % 120]
     requests = []
-    for quantity in order + order[::-1]:
-        requests.append((quantity, res.get_alloc() if quantity == "spend" else res.get_coverage(quantity)))
+    for k_, quantity in enumerate(order + order[::-1]):
+        rep = res.get_alloc() if quantity == "spend" else res.get_coverage(quantity)
+        requests.append((quantity, {name: np.array(arr, dtype=float, copy=True) for name, arr in rep.items()}))
+        if k_ < len(order):
+            # the caller owns what a report returns: overwriting the returned arrays must not reach the result (or any cache behind it)
+            for arr in rep.values():
+                if isinstance(arr, np.ndarray) and arr.flags.writeable:
+                    arr[...] = -12345.0
     feats.add("report-order:%s-first" % order[0])
     for q in progs:
         for quantity, arrs in requests:
